@@ -321,6 +321,14 @@ pub fn declared_integrity_ex(d: IntegDecl, algo: Algo, data: &[u8], other: &[u8]
         IntegDecl::MultiAllWrong => Some(format!("{} {}", wrong(1), wrong(2))),
         IntegDecl::DigestOfOtherBlob => Some(blob::sri(algo, other)),
         IntegDecl::NoHashes => Some(String::new()),
+        IntegDecl::MultiThree => {
+            let mut v: Vec<Algo> = vec![Algo::Sha1, Algo::Sha256, Algo::Sha512];
+            if !v.contains(&algo) {
+                v.insert(0, algo);
+            }
+            Some(v.iter().map(|a| blob::sri(*a, data)).collect::<Vec<_>>().join(" "))
+        }
+        IntegDecl::MultiRightInTheMiddle => Some(format!("{} {} {}", wrong(1), blob::sri(algo, data), wrong(2))),
         IntegDecl::MultiStrongerOfOther => {
             let stronger = match algo {
                 Algo::Sha512 => None,
